@@ -129,6 +129,86 @@ fn vf_chars(s: &str) -> (r: Vec<char>)
 //@ ENDLOOP
 //@END
 
+// ---- the two ids of a rule --------------------------------------------------------------------------------------------------
+// R6: Option<String>::as_deref / Option<Vec<_>>::as_ref (borrowed views of the same values)
+#[verifier::external_body]
+fn vf_as_deref(o: &Option<String>) -> (r: Option<&str>)
+    ensures match r { Some(x) => o is Some && x@ == o->Some_0@, None => o is None }
+{ o.as_deref() }
+// FilterPart::string_view (the pattern text; any-of patterns joined): a function of the pattern
+pub open spec fn pattern_text(f: FilterPart) -> Option<String> {
+    match f { FilterPart::Empty => None::<String>, FilterPart::Simple(s) => Some(s), FilterPart::AnyOf(v) => Some(joined_spec(v@)) }
+}
+pub open spec fn deref_view(o: Option<String>) -> Seq<u64> { match o { Some(x) => chars_u64(x@), None => Seq::empty() } }
+pub open spec fn hashes_view(o: Option<Vec<Hash>>) -> Seq<u64> { match o { Some(x) => x@, None => Seq::empty() } }
+// the id of rule f computed with the given mask bits: "a function of exactly the pattern and the matching options"
+pub open spec fn rule_id(f: NetworkFilter, bits: u32) -> u64 {
+    let h0 = ((5408u64 * 33) as u64) ^ (bits as u64);
+    let h1 = fold_all(h0, deref_view(f.modifier_option));
+    let h2 = fold_all(h1, hashes_view(f.opt_domains));
+    let h3 = fold_all(h2, hashes_view(f.opt_not_domains));
+    let h4 = fold_all(h3, deref_view(pattern_text(f.filter)));
+    fold_all(h4, deref_view(f.hostname))
+}
+
+impl NetworkFilter {
+//@EXTRACT src/filters/network.rs :: impl NetworkFilter :: fn get_id
+//@ RET r
+//@ SAFETY C04.id.get_id.safety
+//@ SPEC
+        ensures r == rule_id(*self, self.mask.bits), // OBL C04.id.get_id
+//@ ENDSPEC
+//@ SUBST R6
+    self.modifier_option.as_deref()
+//@ WITH
+    vf_as_deref(&self.modifier_option)
+//@ ENDSUBST
+//@ SUBST R6
+    self.filter.string_view().as_deref()
+//@ WITH
+    vf_as_deref(&self.filter.string_view())
+//@ ENDSUBST
+//@ SUBST R6
+    self.hostname.as_deref()
+//@ WITH
+    vf_as_deref(&self.hostname)
+//@ ENDSUBST
+//@END
+
+//@EXTRACT src/filters/network.rs :: impl NetworkFilter :: fn get_id_without_badfilter
+//@ RET r
+//@ SAFETY C04.id.get_id_without_badfilter.safety
+//@ SPEC
+        ensures r == rule_id(*self, self.mask.bits & !NetworkFilterMask::BAD_FILTER.bits), // OBL C04.id.get_id_without_badfilter
+//@ ENDSPEC
+//@ SUBST R6
+    self.modifier_option.as_deref()
+//@ WITH
+    vf_as_deref(&self.modifier_option)
+//@ ENDSUBST
+//@ SUBST R6
+    self.filter.string_view().as_deref()
+//@ WITH
+    vf_as_deref(&self.filter.string_view())
+//@ ENDSUBST
+//@ SUBST R6
+    self.hostname.as_deref()
+//@ WITH
+    vf_as_deref(&self.hostname)
+//@ ENDSUBST
+//@END
+}
+
+// "a $badfilter rule cancels the rule that is identical to it except for the badfilter option" - over the two contracts
+proof fn lemma_badfilter_twin(b: NetworkFilter, t: NetworkFilter)
+    requires
+        b.mask.bits & NetworkFilterMask::BAD_FILTER.bits == NetworkFilterMask::BAD_FILTER.bits,
+        t.mask.bits == b.mask.bits & !NetworkFilterMask::BAD_FILTER.bits,
+        t.modifier_option == b.modifier_option, t.opt_domains == b.opt_domains, t.opt_not_domains == b.opt_not_domains, t.filter == b.filter, t.hostname == b.hostname,
+    ensures rule_id(b, b.mask.bits & !NetworkFilterMask::BAD_FILTER.bits) == rule_id(t, t.mask.bits), // OBL C04.id.badfilter_twin
+{
+}
+
 proof fn vf_canary() ensures false {}
 
 } // verus!
